@@ -23,6 +23,7 @@
 -/
 import EvalFilter.Model.Api
 import EvalFilter.Proofs.WFCheck
+import EvalFilter.Proofs.CompStatic
 import EvalFilter.Props.Tables
 
 namespace EvalFilter.Props.C18
@@ -30,40 +31,10 @@ open EvalFilter EvalFilter.VM EvalFilter.WF
 
 /-! ### the decoder and the emitter agree -/
 
-/-- what `emit` really stores for an instruction: operands are truncated to 16 bits -/
-def stored (i : Instr) : Instr := ⟨i.op, if i.op.length = 3 then i.arg % 65536 else 0⟩
-
-def withOffsets : Nat → List Instr → List (Nat × Instr)
-  | _, [] => []
-  | off, i :: is => (off, stored i) :: withOffsets (off + i.size) is
-
-theorem decode16_encode16 (n : Nat) :
-    decode16 (UInt8.ofNat (n % 65536 / 256)) (UInt8.ofNat (n % 256)) = n % 65536 := by
-  unfold decode16
-  have h1 : (UInt8.ofNat (n % 65536 / 256)).toNat = n % 65536 / 256 := by
-    simp only [UInt8.toNat_ofNat']; omega
-  have h2 : (UInt8.ofNat (n % 256)).toNat = n % 256 := by
-    simp only [UInt8.toNat_ofNat']; omega
-  rw [h1, h2]; omega
-
-/-- decoding the bytes `emit` produced for a list of instructions gives the instructions back -/
+/-- decoding the bytes `emit` produced for a list of instructions gives the instructions back (operands
+    truncated to 16 bits, as `emit` truncates them: `WF.stored`) -/
 theorem C18_decode_encode (is : List Instr) (off : Nat) :
-    decode off (encodeAll is) = some (withOffsets off is) := by
-  induction is generalizing off with
-  | nil => simp [encodeAll, withOffsets, decode_nil]
-  | cons i rest ih =>
-    have hb : Op.ofNat? (UInt8.ofNat i.op.toNat).toNat = some i.op := by
-      simp [Nat.mod_eq_of_lt (Op.toNat_lt i.op), Op.ofNat_toNat]
-    rcases Op.length_cases i.op with h1 | h3
-    · have hne : i.op.length ≠ 3 := by omega
-      have henc : i.encode = [UInt8.ofNat i.op.toNat] := by simp [Instr.encode, Op.hasOperand, h1]
-      simp only [encodeAll, henc, List.singleton_append]
-      rw [decode_cons1 off _ _ i.op hb hne, ih]
-      simp [withOffsets, stored, Instr.size, h1]
-    · have henc : i.encode = UInt8.ofNat i.op.toNat :: encode16 i.arg := by simp [Instr.encode, Op.hasOperand, h3]
-      simp only [encodeAll, henc, encode16, List.cons_append, List.nil_append]
-      rw [decode_cons3 off _ _ _ _ i.op hb h3, ih]
-      simp [withOffsets, stored, Instr.size, h3, decode16_encode16]
+    decode off (encodeAll is) = some (withOffsets off is) := decode_encodeAll is off
 
 /-- the instruction lengths the verifier, the VM and the emitter use are one table, the one in
     code/code.go (regenerated on this run) -/
@@ -108,6 +79,35 @@ theorem C18_operator_errors_are_not_internal (M : Machine) (op : Op) (l r : Valu
     e ≠ .error "unknownOpcode" ∧ e ≠ .error "ipOOB" ∧ e ≠ .error "badConstant" ∧ e ≠ .error "underflow" :=
   binop_clean h
 
+/-! ### every accepted script, before the optimizer -/
+
+/-- the code emitted for any tree has exactly the size the compiler's label arithmetic assumes -/
+theorem C18_emitted_size (e : Expr) (base : Nat) (st : Compiler.CState) (r : List Instr × Compiler.CState)
+    (h : Compiler.compileExpr e base st = .ok r) : codeSize r.1 = e.size := Compiler.compileExpr_size e base st r h
+
+/-- every jump emitted for any tree, at any offset, lands on an instruction start of that tree's code -/
+theorem C18_jumps_closed (e : Expr) (base : Nat) (st : Compiler.CState) (r : List Instr × Compiler.CState)
+    (h : Compiler.compileExpr e base st = .ok r) : Compiler.Closed base r.1 := Compiler.compileExpr_closed e base st r h
+
+/-- **For every accepted script** the compiled program - main body and every function body - decodes
+    completely, jumps only to instruction starts of the same body, references only existing constants,
+    and every function body ends in a return. -/
+theorem C18_compile_wf (prog : Program) (c : Compiler.Compiled) (h : Compiler.compileProgram prog = .ok c) :
+    StaticOk c.consts.length (encodeAll c.main) (withOffsets 0 c.main) ∧
+    ∀ f, f ∈ c.funcs → StaticOk c.consts.length (encodeAll f.code) (withOffsets 0 f.code) ∧ Compiler.EndsRet f.code :=
+  compileProgram_static prog c h
+
+/-- **For every script prepared with NoOptimize**, no run ever ends with an unknown opcode, an instruction
+    pointer out of bounds or a bad constant. -/
+theorem C18_unoptimized_no_decode_errors (script : List Char) (env : Env) (fns : List (Str × FnImpl))
+    (done : Nat → Bool) (p : Api.Prepared) (env' : Env) (h : Api.prepare script false env fns done = .ok (p, env'))
+    (obj : HostVal) (fuel : Nat) (st : RunSt) :
+    (run p.machine obj fuel st).1 ≠ err "unknownOpcode" ∧ (run p.machine obj fuel st).1 ≠ err "ipOOB" ∧
+    (run p.machine obj fuel st).1 ≠ err "badConstant" := by
+  have := prepared_unoptimized_static script env fns done p env' h obj fuel st
+  simp only [internalStatic, not_or] at this
+  exact this
+
 /-! ### the stack: what is proved (partial) -/
 
 /-- the checker refuses an instruction whose certified depth is below what it pops -/
@@ -132,12 +132,12 @@ theorem C18_rejects :
     (checkBody [true] ⟨[0, 0], false⟩).isSome = true ∧
     (checkBody [true] ⟨encodeAll [⟨.constant, 0⟩, ⟨.return, 0⟩], true⟩).isSome = false := by
   refine ⟨?_, ?_, ?_, ?_, ?_, ?_, ?_⟩
-  · simp only [checkBody, C18_decode_encode]; decide
-  · simp only [checkBody, C18_decode_encode]; decide
-  · simp only [checkBody, C18_decode_encode]; decide
-  · simp only [checkBody, C18_decode_encode]; decide
+  · simp only [checkBody, decode_encodeAll]; decide
+  · simp only [checkBody, decode_encodeAll]; decide
+  · simp only [checkBody, decode_encodeAll]; decide
+  · simp only [checkBody, decode_encodeAll]; decide
   · simp [checkBody, decode, Op.ofNat?]
   · simp [checkBody, decode, Op.ofNat?, Op.length]
-  · simp only [checkBody, C18_decode_encode]; decide
+  · simp only [checkBody, decode_encodeAll]; decide
 
 end EvalFilter.Props.C18
